@@ -41,6 +41,11 @@ type wtWaiter struct {
 	gate   chan struct{}
 }
 
+type wtTimer struct {
+	tm       *time.Timer
+	deadline int
+}
+
 type wtCase struct {
 	ctx      *Ctx
 	st       kvs.Storage
@@ -49,7 +54,10 @@ type wtCase struct {
 	flushed  int
 	waiters  []*wtWaiter
 	versions []string // by write ordinal (1-based)
-	expiry   map[string]time.Time
+	expiry   map[string]int // key -> virtual expiry time (ms) of the record written last, if it has one
+	vnow     int            // virtual clock (ms); moves only at `expire`
+	base     time.Time
+	timers   map[int64]wtTimer // goroutine -> the expiry timer it sleeps on
 	failed   bool
 	mainGid  int64
 	nontriv  bool
@@ -88,13 +96,6 @@ func (c *wtCase) flush(mainEvent string) {
 	c.flushed = len(c.secs)
 	c.mu.Unlock()
 	for _, r := range recs {
-		// a record whose ExpiresAt lies before this critical section has expired by then (environment step)
-		for _, k := range []string{"a", "b"} {
-			if t, ok := c.expiry[k]; ok && !r.at.Before(t) {
-				c.ctx.R.Op("expire "+k, "ok")
-				delete(c.expiry, k)
-			}
-		}
 		if r.gid == c.mainGid {
 			if mainEvent != "" {
 				c.ctx.R.Op(mainEvent, "ok")
@@ -267,7 +268,23 @@ func (c *wtCase) parkedOn(key string) int {
 }
 
 func runWaitersCase(ctx *Ctx, specs [][2]interface{}, script []string) {
-	c := &wtCase{ctx: ctx, st: inmem.New(), expiry: map[string]time.Time{}, mainGid: goid()}
+	c := &wtCase{ctx: ctx, st: inmem.New(), expiry: map[string]int{}, mainGid: goid(), timers: map[int64]wtTimer{},
+		base: time.Date(2031, 1, 1, 0, 0, 0, 0, time.UTC)}
+	// virtual time: the in-memory store reads the clock through verifNow() and takes its expiry timers from
+	// the harness, which fires them when the virtual clock has passed their deadline (`expire` op)
+	inmem.VerifSetClock(func() time.Time {
+		c.mu.Lock()
+		defer c.mu.Unlock()
+		return c.base.Add(time.Duration(c.vnow) * time.Millisecond)
+	})
+	inmem.VerifTimerHook = func(d time.Duration) *time.Timer {
+		tm := time.NewTimer(time.Hour)
+		c.mu.Lock()
+		c.timers[goid()] = wtTimer{tm: tm, deadline: c.vnow + int(d/time.Millisecond)}
+		c.mu.Unlock()
+		return tm
+	}
+	defer func() { inmem.VerifTimerHook = nil; inmem.VerifSetClock(nil) }()
 	var hdr []string
 	for i, s := range specs {
 		w := &wtWaiter{idx: i, key: s[0].(string), verOrd: s[1].(int), result: make(chan string, 1), gate: make(chan struct{})}
@@ -288,6 +305,13 @@ func runWaitersCase(ctx *Ctx, specs [][2]interface{}, script []string) {
 			if gate != nil {
 				<-gate
 			}
+			return
+		}
+		if kind == "enter" {
+			// a waiter that runs a section again has left its select: its previous expiry timer is obsolete
+			c.mu.Lock()
+			delete(c.timers, goid())
+			c.mu.Unlock()
 			return
 		}
 		if kind != "leave" {
@@ -346,9 +370,12 @@ func runWaitersCase(ctx *Ctx, specs [][2]interface{}, script []string) {
 			// putx: with a short expiry
 			rec := kvs.Record{Key: f[1], Value: []byte("v")}
 			if f[0] == "putx" {
-				t := time.Now().Add(12 * time.Millisecond)
+				c.mu.Lock()
+				ex := c.vnow + 12
+				c.mu.Unlock()
+				t := c.base.Add(time.Duration(ex) * time.Millisecond)
 				rec.ExpiresAt = &t
-				c.expiry[f[1]] = t
+				c.expiry[f[1]] = ex
 			} else {
 				delete(c.expiry, f[1])
 			}
@@ -407,19 +434,50 @@ func runWaitersCase(ctx *Ctx, specs [][2]interface{}, script []string) {
 			}
 			c.settle()
 		case "expire":
-			t, ok := c.expiry[f[1]]
+			ex, ok := c.expiry[f[1]]
 			if !ok {
 				continue
 			}
-			if d := time.Until(t); d > 0 {
-				time.Sleep(d)
+			// the record's ExpiresAt passes (environment step of the model) …
+			c.mu.Lock()
+			if c.vnow < ex+2 {
+				c.vnow = ex + 2
 			}
-			time.Sleep(4 * time.Millisecond) // waiters' expiry timers (expiry + 1ms) fire
+			now := c.vnow
+			c.mu.Unlock()
+			delete(c.expiry, f[1])
+			ctx.R.Op("expire "+f[1], "ok")
+			// … and every expiry timer whose deadline has passed fires
+			c.mu.Lock()
+			var due []*time.Timer
+			expect := 0
+			for g, tm := range c.timers {
+				if tm.deadline <= now {
+					due = append(due, tm.tm)
+					delete(c.timers, g)
+					for _, w := range c.waiters {
+						if w.started && !w.done && w.gid == g && !w.atGate {
+							expect++ // parked in its select: it will run its `timer` section
+						}
+					}
+				}
+			}
+			n0 := len(c.secs)
+			c.mu.Unlock()
+			for _, tm := range due {
+				tm.Reset(0)
+			}
+			// every woken waiter must be seen to act (its `timer` section) before the system counts as settled
+			for i := 0; i < 3000 && expect > 0; i++ {
+				c.mu.Lock()
+				acted := len(c.secs) >= n0+expect
+				c.mu.Unlock()
+				if acted {
+					break
+				}
+				time.Sleep(10 * time.Microsecond)
+			}
 			c.settle()
-			if _, still := c.expiry[f[1]]; still {
-				ctx.R.Op("expire "+f[1], "ok") // nobody touched the key since: it has expired unnoticed
-				delete(c.expiry, f[1])
-			}
 		}
 	}
 	// cancel whoever is still waiting; then no bookkeeping may be left (C07)
